@@ -82,6 +82,8 @@ type FracInfo struct {
 	From   uint64 `json:"from"`
 	To     uint64 `json:"to"`
 	Sealed bool   `json:"sealed"`
+	Size   uint64 `json:"size"` // Info.FullSize: what retention adds up
+	Pos    int    `json:"pos"`  // position in the fraction manager's list (retention removes from the front)
 }
 
 var (
@@ -128,13 +130,14 @@ var (
 var (
 	delayMu    sync.Mutex
 	delayPoint string
+	delayArg   string
 	delayFor   time.Duration
 )
 
 func hook(name string, args ...string) {
 	delayMu.Lock()
 	d := time.Duration(0)
-	if delayPoint != "" && delayPoint == name {
+	if delayPoint != "" && delayPoint == name && (delayArg == "" || (len(args) > 0 && args[0] == delayArg)) {
 		d, delayPoint = delayFor, ""
 	}
 	delayMu.Unlock()
@@ -256,7 +259,7 @@ func main() {
 			reply(Resp{OK: true})
 		case "burst":
 			delayMu.Lock()
-			delayPoint, delayFor = c.DelayPoint, time.Duration(c.DelayMs)*time.Millisecond
+			delayPoint, delayArg, delayFor = c.DelayPoint, "", time.Duration(c.DelayMs)*time.Millisecond
 			delayMu.Unlock()
 			errs := make([]error, 2)
 			var wg sync.WaitGroup
@@ -280,6 +283,24 @@ func main() {
 		case "seal":
 			st.Seal()
 			reply(Resp{OK: true})
+		case "delay": // the next goroutine to reach Point (Arg) sleeps there for DelayMs
+			delayMu.Lock()
+			delayPoint, delayArg, delayFor = c.Point, c.Arg, time.Duration(c.DelayMs)*time.Millisecond
+			delayMu.Unlock()
+			reply(Resp{OK: true})
+		case "sealasync": // rotate now, seal in the background (as the maintenance loop does)
+			st.WaitIdle()
+			before := st.FM.Active().Info().Name()
+			go st.FM.SealForcedForTests()
+			ok := false
+			for i := 0; i < 2000; i++ {
+				if st.FM.Active().Info().Name() != before {
+					ok = true
+					break
+				}
+				time.Sleep(time.Millisecond)
+			}
+			reply(Resp{OK: ok})
 		case "maintain":
 			st.WaitIdle()
 			st.FM.VerifMaintenance()
@@ -311,9 +332,9 @@ func main() {
 			reply(Resp{OK: true, Files: listFiles(c.Dir)})
 		case "fracs":
 			var fi []FracInfo
-			for _, f := range st.FM.GetAllFracs() {
+			for pos, f := range st.FM.GetAllFracs() {
 				info := f.Info()
-				fi = append(fi, FracInfo{Name: info.Name(), Docs: info.DocsTotal, From: uint64(info.From), To: uint64(info.To), Sealed: info.SealingTime != 0})
+				fi = append(fi, FracInfo{Name: info.Name(), Docs: info.DocsTotal, From: uint64(info.From), To: uint64(info.To), Sealed: info.SealingTime != 0, Size: info.FullSize(), Pos: pos})
 			}
 			sort.Slice(fi, func(i, j int) bool { return fi[i].Name < fi[j].Name })
 			reply(Resp{OK: true, Fracs: fi})
